@@ -9,6 +9,8 @@ from props import httpcommon as hc
 LM_BASE = 1600000000   # Last-Modified of version v = LM_BASE + v*1000 s
 
 def vkey(u, v):
+    if u >= 100:      # large URL universes (C17's many-entries stratum): K + 3 digits url + 4 digits version, same length
+        return 'K%03d%04d' % (u % 1000, v % 10000)
     return 'k%02d%05d' % (u % 100, v % 100000)
 
 def etag(u, v, weak=False):
@@ -199,6 +201,8 @@ def analyse(hist, plan):
             r.ver = None; r.ver_u = None
             if ver and re.match(rb'^k\d{7}$', ver):
                 r.ver_u = int(ver[1:3]); r.ver = int(ver[3:])
+            elif ver and re.match(rb'^K\d{7}$', ver):
+                r.ver_u = int(ver[1:4]); r.ver = int(ver[4:])
             r.sent = sent
             recs.append(r)
             k += 1
